@@ -152,7 +152,7 @@ theorem C10_drain_filter_partial (X : Ctx) (hq : ∀ k, X.o.panicAt k = false) (
 
 /-- the never-allocated vector: nothing to scan, nothing touched -/
 theorem C10_drain_filter_default (X : Ctx) (pred : Vec.Pred1) (s : St) (h : Abs X s.v []) (hd : s.v.isDefault = true) (n : Nat) :
-    ∃ f0, DrainFilter.create X pred s = (.ok f0, s) ∧ (∃ ys f1, runDF X n f0 s = (.ok (ys, f1), s) ∧ ∀ y ∈ ys, y = none) ∧
+    ∃ f0, DrainFilter.create X pred s = (.ok f0, s) ∧ (∃ ys, runDF X n f0 s = (.ok (ys, f0), s) ∧ ∀ y ∈ ys, y = none) ∧
       DrainFilter.drop X f0 s = (.ok (), s) := by
   have hL : (hsOf s.v s.sys.allocIdx).L = 0 := by have := h.len_eq (k := s.sys.allocIdx); simpa using this
   have h1 : VM.lift X (len X.env) s = (.ok 0, s) := lift_read X _ s _ (by rw [len_run, hL])
@@ -164,10 +164,10 @@ theorem C10_drain_filter_default (X : Ctx) (pred : Vec.Pred1) (s : St) (h : Abs 
     simp only [VM.bind_run, h1, Nat.lt_irrefl, if_false, VM.pure_run, gt_iff_lt]
     rfl
   · induction n with
-    | zero => exact ⟨[], f0, rfl, by simp⟩
+    | zero => exact ⟨[], rfl, by simp⟩
     | succ n ih =>
-      obtain ⟨ys, f1, hr, hall⟩ := ih
-      refine ⟨none :: ys, f1, ?_, by simpa using hall⟩
+      obtain ⟨ys, hr, hall⟩ := ih
+      refine ⟨none :: ys, ?_, by simpa using hall⟩
       have := hn 0
       simp only [runDF]
       show (match DrainFilter.next X (0 - 0 + 1) f0 s with | _ => _) = _
